@@ -31,7 +31,7 @@ inductive Eff
   | wmem (a v : Tm) | bmem (a v : Tm) | wsto (k v : Tm)
   | rmem (o : String) (a : Tm) | rsto (o : String) (k : Tm) | hmem (o : String) (off len : Tm)
   | skip
-  deriving Repr
+  deriving Repr, DecidableEq
 
 def effOf (S : Spec) (u : UInstr) : Eff :=
   match u.op, argsTm S u, u.out with
@@ -121,7 +121,7 @@ def Eff.stoAcc : Eff → Option (Tm × Bool)
 
 /-- syntactic conflict: data flow either way, two loads into the same variable, or two accesses to the same
     space one of which writes and whose ranges / keys are not provably disjoint -/
-def confl (f g : Eff) : Bool :=
+def conflCore (f g : Eff) : Bool :=
   flows f g || flows g f ||
   (match f.out?, g.out? with
    | some o, some o' => o == o'
@@ -136,6 +136,10 @@ def confl (f g : Eff) : Bool :=
   (match f.stoAcc, g.stoAcc with
    | some (k, wa), some (j, wb) => (wa || wb) && !(Norm.keysDiffer k j)
    | _, _ => false)
+
+/-- the conflict relation: an operation does not conflict with an identical one (same kind, same argument terms,
+    same output: running it twice in either order is the same run), otherwise `conflCore` -/
+def confl (f g : Eff) : Bool := !(decide (f = g)) && conflCore f g
 
 /-- the effect of the operation with identifier `id` (`skip` for an unknown identifier) -/
 def effId (S : Spec) (id : String) : Eff :=
